@@ -1,8 +1,8 @@
 /-
 Reading the model's own output back: the tree builder run over the events of a rendering
 returns the element tree of the AST (`xmlTree`).  Together with Lemmas/XmlLex.lean this gives
-`readXml (renderXml o t) = some (xmlTree o t)` for every tree without `EscapedTag` nodes and
-without children under literal kinds.
+`readXml (renderXml o t) = some (xmlTree o t)` for every tree without children under literal
+kinds.
 -/
 import Comrak.Lemmas.XmlLex
 import Comrak.Lemmas.XmlNamesNe
@@ -16,7 +16,6 @@ theorem attrPairs_append (a b : List XAttr) : attrPairs (a ++ b) = attrPairs a +
   | nil => rfl
   | cons x r ih =>
     cases x with
-    | raw bs => simpa [attrPairs] using ih
     | mk n v => cases v <;> simp [attrPairs, ih]
 
 theorem isPreserve_cons (n v : Bytes) (r : List (Bytes × Bytes)) :
@@ -61,12 +60,11 @@ theorem attrsGood_align (as : List (Bytes × Bytes)) (a : Align) (h : (as.any fu
     attrsGood as (alignXmlAttr a) = true := by
   cases a <;> simp [alignXmlAttr, xAttr, attrsGood, valOk, h]
 
-/-- Attribute lists of every kind but `EscapedTag` are good after an optional sourcepos attribute. -/
+/-- Attribute lists of every kind are good after an optional sourcepos attribute. -/
 theorem attrsGood_kind (cx : XCtx) (v : NodeValue) (as : List (Bytes × Bytes))
-    (has : as = [] ∨ ∃ x, as = [(XS.a_sourcepos, x)]) (h : isEscapedTag v = false) :
+    (has : as = [] ∨ ∃ x, as = [(XS.a_sourcepos, x)]) :
     attrsGood as (xmlKindAttrs cx v) = true := by
   cases v
-  case escapedTag s => simp [isEscapedTag] at h
   case tableCell =>
     simp only [xmlKindAttrs]
     split
@@ -94,23 +92,22 @@ theorem attrsGood_kind (cx : XCtx) (v : NodeValue) (as : List (Bytes × Bytes))
     rcases has with rfl | ⟨x, rfl⟩ <;>
       simp [xmlKindAttrs, xAttr, xAttrE, preserveAttr, attrsGood, valOk, XVal.payload]
 
-theorem attrsGood_attrs (o : XmlOpts) (cx : XCtx) (v : NodeValue) (sp : Sp) (h : isEscapedTag v = false) :
+theorem attrsGood_attrs (o : XmlOpts) (cx : XCtx) (v : NodeValue) (sp : Sp) :
     attrsGood [] (xmlAttrs o cx v sp) = true := by
   unfold xmlAttrs xmlSpAttr
   split
   · simp only [List.cons_append, List.nil_append, xAttr, attrsGood, valOk, XVal.payload]
-    simp [attrsGood_kind cx v _ (Or.inr ⟨_, rfl⟩) h]
-  · simpa using attrsGood_kind cx v [] (Or.inl rfl) h
+    simp [attrsGood_kind cx v _ (Or.inr ⟨_, rfl⟩)]
+  · simpa using attrsGood_kind cx v [] (Or.inl rfl)
 
-/-- Every token of a tree without `EscapedTag` nodes is lexable. -/
-theorem renderXmlToks_good (o : XmlOpts) (t : Tree) (h : noEscapedTagT t = true) :
+/-- Every token of every tree is lexable. -/
+theorem renderXmlToks_good (o : XmlOpts) (t : Tree) :
     (renderXmlToks o t).all tokGood = true :=
-  renderXmlT_all o tokGood (fun v => !isEscapedTag v)
+  renderXmlT_all o tokGood (fun _ => true)
     (by
-      intro ind cx v sp l hq
-      have hq' : isEscapedTag v = false := by simpa using hq
-      simp [tokGood, XTok.attrs, XTok.name, xmlName_legal, attrsGood_attrs o cx v sp hq', attrsGood])
-    t 0 {} h
+      intro ind cx v sp l _
+      simp [tokGood, XTok.attrs, XTok.name, xmlName_legal, attrsGood_attrs o cx v sp, attrsGood])
+    t 0 {} (Tree.allV_true t)
 
 /-! ### The builder -/
 
@@ -308,11 +305,11 @@ theorem renderXmlT_ne (o : XmlOpts) (ind : Nat) (cx : XCtx) (t : Tree) : renderX
     · split <;> simp
 
 /-- **Reading back.** -/
-theorem readXml_renderXml (o : XmlOpts) (t : Tree) (hl : litLeafT t = true) (he : noEscapedTagT t = true) :
+theorem readXml_renderXml (o : XmlOpts) (t : Tree) (hl : litLeafT t = true) :
     readXml (renderXml o t) = some (xmlTree o t) := by
   unfold readXml renderXml spellXml
   rw [if_pos (isPrefixB_self_append _ _), List.drop_left,
-    lexXml_spell _ (renderXmlToks_good o t he) (renderXmlT_ne o 0 {} t)]
+    lexXml_spell _ (renderXmlToks_good o t) (renderXmlT_ne o 0 {} t)]
   simp only [renderXmlToks]
   rw [readT o t 0 {} hl [] [] none _ rfl rfl]
   simp [pushNode, xbuildLoop_cons, xbuildStep, allWs_nlB, xbuildLoop, xmlTree]
